@@ -309,6 +309,19 @@ func TemplateCatalog() []Case {
 	cs = append(cs, tmpl("tmpl-nilptr", `{% var p *int %}{{ *p }}`, nil))
 	cs = append(cs, tmpl("tmpl-assert", `{% var i interface{} = 1 %}{{ i.(string) }}`, nil))
 	cs = append(cs, tmpl("tmpl-panic-fine", `{% defer func() { recover() }() %}{% panic("x") %}`, nil))
+	// a defer inside a function literal or a macro, followed by text or a show: the renderer
+	// must be the caller's again when the deferred call has returned
+	cs = append(cs, tmpl("tmpl-funclit-defer-text-fine", `{% func() { defer func() {}() }() %}x`, nil))
+	cs = append(cs, tmpl("tmpl-funclit-defer-show-fine", `{% func() { defer func() {}() }() %}{{ 1 + 2 }}`, nil))
+	cs = append(cs, tmpl("tmpl-funclit-defer-native-fine", `{% func() { defer println("d") }() %}x`, nil))
+	cs = append(cs, tmpl("tmpl-funclit-defer-recover", `{% func() { defer func() { recover() }(); panic(1) }() %}x{{ 2 }}`, nil))
+	cs = append(cs, tmpl("tmpl-funclit-defer-two-fine", `a{% func() { defer func() {}(); defer func(a int) {}(1) }() %}b{% func() { defer func() {}() }() %}c`, nil))
+	cs = append(cs, tmpl("tmpl-macro-funclit-defer-fine", `{% macro M %}a{% func() { defer func() {}() }() %}b{% end %}{{ M() }}c`, nil))
+	cs = append(cs, tmpl("tmpl-macro-funclit-defer-recover", `{% macro M %}a{% func() { defer func() { recover() }(); panic(1) }() %}b{% end %}{{ M() }}c{{ M() }}`, nil))
+	cs = append(cs, tmpl("tmpl-macro-defer-fine", `{% macro M %}a{% defer func() {}() %}b{% end %}{{ M() }}c`, nil))
+	cs = append(cs, tmpl("tmpl-macro-defer-string-fine", `{% macro M %}a{% defer func() {}() %}b{% end %}{% var s string = string(M()) %}[{{ s }}]c`, nil))
+	cs = append(cs, tmpl("tmpl-defer-text-fine", `a{% defer func() {}() %}x`, nil))
+	cs = append(cs, tmpl("tmpl-funclit-defer-panic", `{% func() { defer func() {}(); var m map[int]int; m[1] = 1 }() %}x`, nil))
 	// documented: invalid template variable values passed to Run
 	x := 0
 	cs = append(cs, Case{Name: "run-var-nil", Tmpl: true, Src: `{{ x }}`, Vars: map[string]any{"x": (*int)(nil)}, RunVars: map[string]any{"x": nil}, Documented: "invalid template variable value"})
